@@ -1344,7 +1344,7 @@ type RadioTap struct {
 func (m *RadioTap) LayerType() gopacket.LayerType { return LayerTypeRadioTap }
 
 func (m *RadioTap) DecodeFromBytes(data []byte, df gopacket.DecodeFeedback) error {
-	dataLen := uint16(len(data))
+	dataLen := len(data)
 	if dataLen < 8 {
 		df.SetTruncated()
 		return errors.New("RadioTap too small")
@@ -1353,12 +1353,12 @@ func (m *RadioTap) DecodeFromBytes(data []byte, df gopacket.DecodeFeedback) erro
 	m.Length = binary.LittleEndian.Uint16(data[2:4])
 
 	// Truncate the length to avoid panics, might be smaller due to corruption or loss
-	if m.Length > dataLen {
-		m.Length = dataLen
+	if int(m.Length) > dataLen {
+		m.Length = uint16(dataLen)
 	}
 
 	// at least one present field will always be included, but we parse out the rest as well
-	offset := uint16(4)
+	offset := 4
 	m.Present = []RadioTapPresent{RadioTapPresent(binary.LittleEndian.Uint32(data[offset : offset+4]))}
 	for (m.Present[len(m.Present)-1] & RadioTapPresentEXT) != 0 {
 		// This parser only handles standard radiotap namespace,
@@ -1378,11 +1378,19 @@ func (m *RadioTap) DecodeFromBytes(data []byte, df gopacket.DecodeFeedback) erro
 	vendorNamespace := false
 	for _, present := range m.Present {
 		if radioTapNamespace {
-			rValues, newOffset := RadioTapNamespace{}.decodeRadioTapNamespace(data, offset, present)
+			rValues, newOffset, err := RadioTapNamespace{}.decodeRadioTapNamespace(data, offset, present)
+			if err != nil {
+				df.SetTruncated()
+				return err
+			}
 			m.RadioTapValues = append(m.RadioTapValues, rValues)
 			offset = newOffset
 		} else if vendorNamespace {
-			vValues, newOffset := VendorNamespace{}.decodeVendorNamespace(data, offset, present)
+			vValues, newOffset, err := VendorNamespace{}.decodeVendorNamespace(data, offset, present)
+			if err != nil {
+				df.SetTruncated()
+				return err
+			}
 			m.VendorValues = append(m.VendorValues, vValues)
 			offset = newOffset
 		} else {
@@ -1437,89 +1445,146 @@ func (m *RadioTap) DecodeFromBytes(data []byte, df gopacket.DecodeFeedback) erro
 	return nil
 }
 
-func (m RadioTapNamespace) decodeRadioTapNamespace(data []byte, offset uint16, present RadioTapPresent) (RadioTapNamespace, uint16) {
+var errRadioTapFieldTruncated = errors.New("RadioTap field extends beyond data")
+
+func (m RadioTapNamespace) decodeRadioTapNamespace(data []byte, offset int, present RadioTapPresent) (RadioTapNamespace, int, error) {
+	// need aligns offset to width and reports whether a field of the given size fits in data there.
+	need := func(width, size int) bool {
+		offset += int(align(uint16(offset), uint16(width)))
+		return offset+size <= len(data)
+	}
 	if present.TSFT() {
-		offset += align(offset, 8)
+		if !need(8, 8) {
+			return m, offset, errRadioTapFieldTruncated
+		}
 		m.TSFT = binary.LittleEndian.Uint64(data[offset : offset+8])
 		offset += 8
 	}
 	if present.Flags() {
+		if !need(1, 1) {
+			return m, offset, errRadioTapFieldTruncated
+		}
 		m.Flags = RadioTapFlags(data[offset])
 		offset++
 	}
 	if present.Rate() {
+		if !need(1, 1) {
+			return m, offset, errRadioTapFieldTruncated
+		}
 		m.Rate = RadioTapRate(data[offset])
 		offset++
 	}
 	if present.Channel() {
-		offset += align(offset, 2)
+		if !need(2, 4) {
+			return m, offset, errRadioTapFieldTruncated
+		}
 		m.ChannelFrequency = RadioTapChannelFrequency(binary.LittleEndian.Uint16(data[offset : offset+2]))
 		offset += 2
 		m.ChannelFlags = RadioTapChannelFlags(binary.LittleEndian.Uint16(data[offset : offset+2]))
 		offset += 2
 	}
 	if present.FHSS() {
+		if !need(1, 2) {
+			return m, offset, errRadioTapFieldTruncated
+		}
 		m.FHSS = binary.LittleEndian.Uint16(data[offset : offset+2])
 		offset += 2
 	}
 	if present.DBMAntennaSignal() {
+		if !need(1, 1) {
+			return m, offset, errRadioTapFieldTruncated
+		}
 		m.DBMAntennaSignal = int8(data[offset])
 		offset++
 	}
 	if present.DBMAntennaNoise() {
+		if !need(1, 1) {
+			return m, offset, errRadioTapFieldTruncated
+		}
 		m.DBMAntennaNoise = int8(data[offset])
 		offset++
 	}
 	if present.LockQuality() {
-		offset += align(offset, 2)
+		if !need(2, 2) {
+			return m, offset, errRadioTapFieldTruncated
+		}
 		m.LockQuality = binary.LittleEndian.Uint16(data[offset : offset+2])
 		offset += 2
 	}
 	if present.TxAttenuation() {
-		offset += align(offset, 2)
+		if !need(2, 2) {
+			return m, offset, errRadioTapFieldTruncated
+		}
 		m.TxAttenuation = binary.LittleEndian.Uint16(data[offset : offset+2])
 		offset += 2
 	}
 	if present.DBTxAttenuation() {
-		offset += align(offset, 2)
+		if !need(2, 2) {
+			return m, offset, errRadioTapFieldTruncated
+		}
 		m.DBTxAttenuation = binary.LittleEndian.Uint16(data[offset : offset+2])
 		offset += 2
 	}
 	if present.DBMTxPower() {
+		if !need(1, 1) {
+			return m, offset, errRadioTapFieldTruncated
+		}
 		m.DBMTxPower = int8(data[offset])
 		offset++
 	}
 	if present.Antenna() {
+		if !need(1, 1) {
+			return m, offset, errRadioTapFieldTruncated
+		}
 		m.Antenna = uint8(data[offset])
 		offset++
 	}
 	if present.DBAntennaSignal() {
+		if !need(1, 1) {
+			return m, offset, errRadioTapFieldTruncated
+		}
 		m.DBAntennaSignal = uint8(data[offset])
 		offset++
 	}
 	if present.DBAntennaNoise() {
+		if !need(1, 1) {
+			return m, offset, errRadioTapFieldTruncated
+		}
 		m.DBAntennaNoise = uint8(data[offset])
 		offset++
 	}
 	if present.RxFlags() {
-		offset += align(offset, 2)
+		if !need(2, 2) {
+			return m, offset, errRadioTapFieldTruncated
+		}
 		m.RxFlags = RadioTapRxFlags(binary.LittleEndian.Uint16(data[offset:]))
 		offset += 2
 	}
 	if present.TxFlags() {
-		offset += align(offset, 2)
+		if !need(2, 2) {
+			return m, offset, errRadioTapFieldTruncated
+		}
 		m.TxFlags = RadioTapTxFlags(binary.LittleEndian.Uint16(data[offset:]))
 		offset += 2
 	}
 	if present.RtsRetries() {
+		if !need(1, 1) {
+			return m, offset, errRadioTapFieldTruncated
+		}
 		m.RtsRetries = uint8(data[offset])
 		offset++
 	}
 	if present.DataRetries() {
+		if !need(1, 1) {
+			return m, offset, errRadioTapFieldTruncated
+		}
 		m.DataRetries = uint8(data[offset])
 		offset++
 	}
 	if present.MCS() {
+		if !need(1, 3) {
+			return m, offset, errRadioTapFieldTruncated
+		}
 		m.MCS = RadioTapMCS{
 			RadioTapMCSKnown(data[offset]),
 			RadioTapMCSFlags(data[offset+1]),
@@ -1528,7 +1593,9 @@ func (m RadioTapNamespace) decodeRadioTapNamespace(data []byte, offset uint16, p
 		offset += 3
 	}
 	if present.AMPDUStatus() {
-		offset += align(offset, 4)
+		if !need(4, 8) {
+			return m, offset, errRadioTapFieldTruncated
+		}
 		m.AMPDUStatus = RadioTapAMPDUStatus{
 			Reference: binary.LittleEndian.Uint32(data[offset:]),
 			Flags:     RadioTapAMPDUStatusFlags(binary.LittleEndian.Uint16(data[offset+4:])),
@@ -1537,7 +1604,9 @@ func (m RadioTapNamespace) decodeRadioTapNamespace(data []byte, offset uint16, p
 		offset += 8
 	}
 	if present.VHT() {
-		offset += align(offset, 2)
+		if !need(2, 12) {
+			return m, offset, errRadioTapFieldTruncated
+		}
 		m.VHT = RadioTapVHT{
 			Known:     RadioTapVHTKnown(binary.LittleEndian.Uint16(data[offset:])),
 			Flags:     RadioTapVHTFlags(data[offset+2]),
@@ -1555,11 +1624,15 @@ func (m RadioTapNamespace) decodeRadioTapNamespace(data []byte, offset uint16, p
 		offset += 12
 	}
 	if present.Timestamp() {
-		offset += align(offset, 8)
+		if !need(8, 12) {
+			return m, offset, errRadioTapFieldTruncated
+		}
 		offset += 12
 	}
 	if present.HE() {
-		offset += align(offset, 2)
+		if !need(2, 12) {
+			return m, offset, errRadioTapFieldTruncated
+		}
 		m.HE = RadiotapHE{
 			Data1: RadiotapHEData1(binary.LittleEndian.Uint16(data[offset:])),
 			Data2: RadiotapHEData2(binary.LittleEndian.Uint16(data[offset+2:])),
@@ -1571,11 +1644,14 @@ func (m RadioTapNamespace) decodeRadioTapNamespace(data []byte, offset uint16, p
 		offset += 12
 	}
 
-	return m, offset
+	return m, offset, nil
 }
 
-func (v VendorNamespace) decodeVendorNamespace(data []byte, offset uint16, present RadioTapPresent) (VendorNamespace, uint16) {
-	offset += align(offset, 2)
+func (v VendorNamespace) decodeVendorNamespace(data []byte, offset int, present RadioTapPresent) (VendorNamespace, int, error) {
+	offset += int(align(uint16(offset), 2))
+	if offset+8 > len(data) {
+		return v, offset, errRadioTapFieldTruncated
+	}
 
 	v.OUI = data[offset : offset+3]
 	offset += 4
@@ -1586,10 +1662,13 @@ func (v VendorNamespace) decodeVendorNamespace(data []byte, offset uint16, prese
 	v.SkipLength = binary.LittleEndian.Uint16(data[offset:])
 	offset += 2
 
-	v.Contents = data[offset : offset+v.SkipLength]
-	offset += v.SkipLength
+	if offset+int(v.SkipLength) > len(data) {
+		return v, offset, errRadioTapFieldTruncated
+	}
+	v.Contents = data[offset : offset+int(v.SkipLength)]
+	offset += int(v.SkipLength)
 
-	return v, offset
+	return v, offset, nil
 }
 
 func (m RadioTap) SerializeTo(b gopacket.SerializeBuffer, opts gopacket.SerializeOptions) error {
